@@ -1117,8 +1117,11 @@ class AstEval:
             sym_table_assign = self.global_sym_table
         else:
             sym_table_assign = self.sym_table
-        if sym_table_assign is not self.global_sym_table:
-            # inside a function the name is a closure cell; a module-level (or global) class is a plain
+        if sym_table_assign is not self.global_sym_table and not isinstance(
+            sym_table_assign.get(arg.name), EvalLocalVar
+        ):
+            # inside a function the name is a closure cell (an existing cell is kept: functions that
+            # captured it must see the new class); a module-level (or global) class is a plain
             # global, so that the module attribute and `from m import K` yield the class itself
             sym_table_assign[arg.name] = EvalLocalVar(arg.name)
         if hasattr(metaclass, "__prepare__"):
